@@ -200,14 +200,18 @@ pub fn conv_ty(t: &Type, adts: &dyn Fn(&str) -> Option<Ty>, generics: &BTreeSet<
         }
         Type::Array(a) => {
             // [T; N] with a literal N is modelled as the N-tuple
+            let e = conv_ty(&a.elem, adts, generics, self_ty)?;
             let n = match &a.len {
                 Expr::Lit(ExprLit { lit: Lit::Int(i), .. }) => i.base10_parse::<usize>().map_err(|e| e.to_string())?,
-                _ => return Err(unsupported(t, "array type whose length is not a literal")),
+                // a length that is not a literal (a const generic, `SIZE * SIZE`): the array is a list, like a slice
+                _ => return Ok(Ty::Slice(Box::new(e))),
             };
-            if n < 2 || n > 8 {
-                return Err(unsupported(t, "array type of length < 2 or > 8"));
+            if n < 2 {
+                return Err(unsupported(t, "array type of length < 2"));
             }
-            let e = conv_ty(&a.elem, adts, generics, self_ty)?;
+            if n > 8 {
+                return Ok(Ty::Slice(Box::new(e)));
+            }
             Ok(Ty::Tuple(vec![e; n]))
         }
         Type::Path(p) if p.qself.is_none() => {
@@ -321,6 +325,7 @@ pub fn place_root(e: &Expr) -> Option<String> {
     match e {
         Expr::Path(p) if p.path.segments.len() == 1 => Some(p.path.segments[0].ident.to_string()),
         Expr::Field(f) => place_root(&f.base),
+        Expr::Index(ix) => place_root(&ix.expr),
         Expr::Paren(p) => place_root(&p.expr),
         Expr::Group(p) => place_root(&p.expr),
         Expr::Unary(u) if matches!(u.op, UnOp::Deref(_)) => place_root(&u.expr),
@@ -594,6 +599,14 @@ impl<'a> Tr<'a> {
                     }
                     let q = self.bind_pat(&ts.elems[0], &inner, env)?;
                     return Ok(format!("(Some {})", q));
+                }
+                if segs.len() == 1 && (segs[0] == "Ok" || segs[0] == "Err") && ts.elems.len() == 1 {
+                    let inner = match ty {
+                        Ty::Result(a, b) => if segs[0] == "Ok" { (**a).clone() } else { (**b).clone() },
+                        _ => return Err(unsupported(p, &format!("`{}(..)` pattern against {}", segs[0], ty.show()))),
+                    };
+                    let q = self.bind_pat(&ts.elems[0], &inner, env)?;
+                    return Ok(format!("({} {})", if segs[0] == "Ok" { "inl" } else { "inr" }, q));
                 }
                 let (ctor, ftys) = self.variant_or_struct(&ts.path, ty, p)?;
                 if ftys.len() != ts.elems.len() {
